@@ -19,7 +19,7 @@ def gen_cases(run, module, cfg, name=None, workers=None, timeout=3000, simulate=
 
 def replay_load(run, cases, trace_module, trace_cfg, build_features=("json",), variant="json", fmt="json",
                 skip_icu=False, tag="", per_case_timeout=20, key_of=None, perm_seed=None, keep_dirs=False,
-                trace_env=None, package="drv_parser", ext=None, codegen_fmt=None):
+                trace_env=None, package="drv_parser", ext=None, codegen_fmt=None, decoy_ext=None):
     """cases: list of case dicts; each becomes a project directory parsed with parse_locales.
     A case with a "mode": "value" field is instead sent to ParsedValue::new (field "s")."""
     wd = os.path.join(run.workdir, "load" + tag)
@@ -40,7 +40,7 @@ def replay_load(run, cases, trace_module, trace_cfg, build_features=("json",), v
         d = os.path.join(wd, "p%05d" % (i + 1))
         # a case may place the crate in a sub-directory of its own directory (so that `locales-dir = "../x"` stays inside the case)
         d_crate = os.path.join(d, c["root"]) if c.get("root") else d
-        vp.materialise(c, d_crate, fmt=fmt, perm_seed=perm_seed, ext=ext)
+        vp.materialise(c, d_crate, fmt=fmt, perm_seed=perm_seed, ext=ext, decoy_ext=decoy_ext)
         rows.append({"case": i + 1, "mode": "load", "dir": d_crate, "skip_icu": skip_icu})
     cases_path = os.path.join(wd, "cases.ndjson")
     # the trace spec only needs the abstract part of a case
